@@ -40,8 +40,8 @@ pub fn alias_normalise(b: &[u8]) -> Vec<u8> {
     out
 }
 
-const MUTS: [&str; 16] = [
-    "swap", "dup", "drop", "arity1", "insert_leaf", "insert_kv", "retag", "retype", "extend", "bytes31", "bytes33", "map0", "map2", "untag", "wrap_tag", "nest",
+const MUTS: [&str; 17] = [
+    "dup_elided_twin", "swap", "dup", "drop", "arity1", "insert_leaf", "insert_kv", "retag", "retype", "extend", "bytes31", "bytes33", "map0", "map2", "untag", "wrap_tag", "nest",
 ];
 
 fn junk(rng: &mut Rng) -> Item {
@@ -77,6 +77,22 @@ fn mutate(item: &Item, counter: &mut usize, target: usize, kind: &str, rng: &mut
                 v.swap(i, j);
                 *applied = true;
                 return Item::Array(v);
+            }
+            ("dup_elided_twin", Item::Array(xs)) if xs.len() >= 2 => {
+                // a second copy of one assertion element as its elided digest, right next to it
+                let i = 1 + rng.below(xs.len() - 1);
+                let enc = encode(&Item::Tag(200, Box::new(xs[i].clone())));
+                if let Ok(s) = spec::parse_envelope(&enc) {
+                    let mut v = xs.clone();
+                    let twin = Item::Bytes(s.digest.to_vec());
+                    if rng.chance(1, 2) {
+                        v.insert(i, twin);
+                    } else {
+                        v.insert(i + 1, twin);
+                    }
+                    *applied = true;
+                    return Item::Array(v);
+                }
             }
             ("dup", Item::Array(xs)) if !xs.is_empty() => {
                 let mut v = xs.clone();
@@ -240,13 +256,21 @@ pub fn judge(ctx: &mut Ctx, b: &[u8], origin: &str) {
 
 pub fn run(ctx: &mut Ctx) {
     let total = ctx.n(80_000, 2_000_000);
-    for case in ctx.cases(total) {
+    let sweep = special_numbers_len();
+    for case in ctx.cases(total + sweep) {
         ctx.begin_case(case);
         let mut rng = ctx.rng(case);
         let mut cfg = cfg_for(ctx, case);
         cfg.node_subject = case % 4 == 0;
         cfg.big = false;
-        let (_m, e0) = universe(&mut rng, cfg, case);
+        let (_m, e0) = if case >= total {
+            ctx.count("special_number_sweep");
+            let m = special_number_model((case - total) as usize);
+            let e = gen::build(&m, crate::gen::Route::Plain, &mut rng);
+            (m, e)
+        } else {
+            universe(&mut rng, cfg, case)
+        };
         let key = fresh_key(&mut rng);
         let e = if rng.chance(1, 2) { gen::obscure_random(&e0, &mut rng, 2, &key) } else { e0 };
         let valid = env_bytes(&e);
